@@ -94,3 +94,31 @@ CHECKS = {
            "the part that holds."),
  },
 }
+
+
+# ---- checks built from a property report (notes/Cxx.md, section "Claim"): claim text kept next to the report
+import os as _os, re as _re
+
+
+def _from_notes(pid):
+    path = _os.path.join(_os.path.dirname(_os.path.dirname(_os.path.abspath(__file__))), "notes", pid + ".md")
+    txt = open(path).read()
+    m = _re.search(r"## Claim(.*?)\n## ", txt, _re.S)
+    sec = m.group(1) if m else txt
+
+    def bullet(name):
+        mm = _re.search(r"\*\s*\*\*%s\*\*\s*:?(.*?)(?=\n\*\s*\*\*|\Z)" % _re.escape(name), sec, _re.S)
+        return _re.sub(r"\s+", " ", mm.group(1)).strip(" :") if mm else ""
+    level = bullet("level").lower()
+    cat = "proof" if "proof" in level else ("translation_validation" if "translation" in level else "other")
+    return {"category": cat, "technique": bullet("technique")[:300] or "Lean 4 proof + correspondence",
+            "design_ref": "DESIGN.md §5 %s; notes/%s.md" % (pid, pid),
+            "text": bullet("level_claimed.text") or bullet("level_claimed"), "note": bullet("level_note")}
+
+
+FROM_NOTES = ["C12", "C13", "C19"]
+for _p in FROM_NOTES:
+    try:
+        CHECKS[_p] = _from_notes(_p)
+    except Exception as _e:      # a report that cannot be parsed is not claimed
+        pass
